@@ -114,6 +114,8 @@ def _budget_for_as_while(fi, loop: ast.For) -> ast.While:
     ast.fix_missing_locations(w)
     keep(w)
     BUDGET_NODES.setdefault(id(fi.node), set()).update(id(n) for n in ast.walk(it))
+    from . import common as _common
+    _common.NORMAL_LOOPS[fi.qualname] = w          # (the emptiness break is the second conjunct of this loop's test: the loop-exit audit reads this form)
     return w
 
 
